@@ -4,12 +4,15 @@
 // reports carry their primary location) -> into_cfg -> into_ssa -> run_taint_analysis,
 // run_constraint_analysis, run_side_effect_analysis.
 //
-// Prints `(ok CFG BRANCHES RESULT)` or `(parseerr)` / `(cfgerr)` / `(ssaerr)` / `(panic STAGE)`.
+// Prints `(ok CFG BRANCHES RESULT IDOM)` or `(parseerr)` / `(cfgerr)` / `(ssaerr)` / `(panic STAGE)`.
 //
 //   CFG      := the SSA cfg in the format of irdump.rs
 //   BRANCHES := (branches (IDX (T*) (F*))*)   for every block ending in an if: the block indices of
 //               Cfg::get_true_branch / get_false_branch (sorted, duplicate free). This is an *input*
 //               of the model (dominance frontiers are another property's model).
+//   IDOM     := (idom I0 I1 ...) the implementation's immediate dominators (irdump::idoms): the untrusted
+//               certificate for the verified SSA validator Model.SsaCheck.ssa_check, whose verdict is a
+//               hypothesis of C09_location_is_unique_definition and is evaluated by the model driver.
 //   RESULT   := (result (universe V*) (taint (V V*)*) (closure (V V*)*) (cons (V V*)*) (ccl (V V*)*)
 //                       (constrained V*) (defs (V START END)*) (decls V*) (sinks V*)
 //                       (findings (CODE KIND NAMEHEX START|- END|-)*))
@@ -271,7 +274,7 @@ fn run(line: &str) -> String {
         Some(Err(_)) => return "(ssaerr)".to_string(),
         Some(Ok(c)) => c,
     };
-    match verif_harness::guarded(|| format!("(ok {} {} {})", irdump::cfg(&cfg), branches(&cfg), analyse(&cfg))) {
+    match verif_harness::guarded(|| format!("(ok {} {} {} {})", irdump::cfg(&cfg), branches(&cfg), analyse(&cfg), irdump::idoms(&cfg))) {
         None => "(panic analysis)".to_string(),
         Some(s) => s,
     }
